@@ -16,7 +16,7 @@ from monitors import universe as U
 
 BASE_TOKENS = ["a", "0", "1", "12", "foo", "", "~", "a/b", "é", "-", "01"]
 OFFSETS = ["", "+1", "-1", "+2", "-2", "+10", "-10", "+12", "-12"]
-SUFFIXES = ["", "#", "/x", "/0", "/a~1b", "/~0", "/é", "/", "/x/y", "/ "]
+SUFFIXES = ["", "#", "/x", "/0", "/a~1b", "/~0", "/é", "/", "/x/y", "/ ", "/100%25", "/x%2Fy"]
 BAD = ["", "x", "-1", "01", "00/a", "0+0", "0-0", "0+01", "1+", "0#x", "0 #", "+1", "0+1x", "1e2", "#", "0x", "00", "0+-1"]
 
 
@@ -24,40 +24,50 @@ def run(tier, seed):
     rec = U.Recorder(f"bases of depth <= 3 over {len(BASE_TOKENS)} tokens x steps 0..depth+1 x {len(OFFSETS)} offsets x {len(SUFFIXES)} suffixes; {len(BAD)} malformed texts")
     bases = [()] + [(a,) for a in BASE_TOKENS] + [(a, b) for a in BASE_TOKENS[:6] for b in BASE_TOKENS] + [(a, b, c) for a in ("a", "0") for b in ("foo", "1") for c in BASE_TOKENS]
     for base in bases:
-        bp = JSONPointer(PU.spell(base), unicode_escape=False)
+      for how in ("parsed", "from_parts"):
+        # the same base, held as parsed tokens (ints for indices) or as given strings
+        bp = JSONPointer(PU.spell(base), unicode_escape=False) if how == "parsed" else JSONPointer.from_parts(list(base), unicode_escape=False)
         for steps in range(0, len(base) + 2):
-            for off in OFFSETS:
-                for suf in SUFFIXES:
-                    text = f"{steps}{off}{suf}"
-                    try:
-                        s, o, sx = R.parse(text)
-                        want = ("ok", R.apply(list(base), s, o, sx))
-                    except R.RelError:
-                        want = ("error",)
-                    try:
-                        rp = RelativeJSONPointer(text, unicode_escape=False)
-                        printed = str(rp)
-                        res = rp.to(bp, unicode_escape=False)
-                        got = ("ok", [str(p) for p in res.parts])
-                    except RelativeJSONPointerError:
-                        got, printed = ("error",), None
-                    except JSONPointerError:
-                        got, printed = ("error",), None
-                    except Exception as e:  # noqa: BLE001
-                        got, printed = ("escape", type(e).__name__), None
-                    if want[0] == "ok" and want[1] is None:
-                        rec.ok()  # offset on a non-index token: unconstrained
-                        continue
-                    if want[0] == "ok" and isinstance(want[1], tuple):  # key marker
-                        toks = want[1][1]
-                        want = ("ok", toks[:-1] + ["#" + toks[-1]])
-                    good = got == want and (printed is None or printed == text)
-                    if good:
-                        rec.ok((text, base) if want[0] == "ok" and off else None, {"base": PU.spell(base), "relative": text, "result": want[1]} if want[0] == "ok" and off and suf else None)
-                    else:
-                        rec.fail(f"{text}|{base}", f"RelativeJSONPointer({text!r}).to({PU.spell(base)!r}) -> {got!r} (printed {printed!r}); the draft gives {want!r}",
-                                 f"from jsonpath import JSONPointer, RelativeJSONPointer\ntry:\n    rp = RelativeJSONPointer({text!r}, unicode_escape=False); r = rp.to(JSONPointer({PU.spell(base)!r}, unicode_escape=False), unicode_escape=False)\n    got = ('ok', [str(p) for p in r.parts]); print(str(rp))\nexcept Exception as e:\n    got = ('error',); print(type(e).__name__, e)\nprint(got, {want!r}); sys.exit(0 if got == {want!r} else 1)",
-                                 classify(text, base, got, want))
+              for off in OFFSETS:
+                  for suf in SUFFIXES:
+                      text = f"{steps}{off}{suf}"
+                      try:
+                          s, o, sx = R.parse(text)
+                          want = ("ok", R.apply(list(base), s, o, sx))
+                      except R.RelError:
+                          want = ("error",)
+                      try:
+                          rp = RelativeJSONPointer(text, unicode_escape=False)
+                          printed = str(rp)
+                          res = rp.to(bp, unicode_escape=False)
+                          got = ("ok", [str(p) for p in res.parts])
+                          # the string entry point of the base pointer is the same operation
+                          via = bp.to(text, unicode_escape=False)
+                          if [str(p) for p in via.parts] != got[1]:
+                              got = ("entry points differ", got[1], [str(p) for p in via.parts])
+                          # and with the default decoding switches (no backslash here: decoding is the identity)
+                          d1, d2 = bp.to(text), RelativeJSONPointer(text).to(bp)
+                          if [str(p) for p in d1.parts] != got[1] or [str(p) for p in d2.parts] != got[1]:
+                              got = ("default switches differ", got[1], [str(p) for p in d1.parts], [str(p) for p in d2.parts])
+                      except RelativeJSONPointerError:
+                          got, printed = ("error",), None
+                      except JSONPointerError:
+                          got, printed = ("error",), None
+                      except Exception as e:  # noqa: BLE001
+                          got, printed = ("escape", type(e).__name__), None
+                      if want[0] == "ok" and want[1] is None:
+                          rec.ok()  # offset on a non-index token: unconstrained
+                          continue
+                      if want[0] == "ok" and isinstance(want[1], tuple):  # key marker
+                          toks = want[1][1]
+                          want = ("ok", toks[:-1] + ["#" + toks[-1]])
+                      good = got == want and (printed is None or printed == text)
+                      if good:
+                          rec.ok((text, base) if want[0] == "ok" and off else None, {"base": PU.spell(base), "relative": text, "result": want[1]} if want[0] == "ok" and off and suf else None)
+                      else:
+                          rec.fail(f"{text}|{base}", f"RelativeJSONPointer({text!r}).to({PU.spell(base)!r}) -> {got!r} (printed {printed!r}); the draft gives {want!r}",
+                                   f"from jsonpath import JSONPointer, RelativeJSONPointer\ntry:\n    rp = RelativeJSONPointer({text!r}, unicode_escape=False); r = rp.to(JSONPointer({PU.spell(base)!r}, unicode_escape=False), unicode_escape=False)\n    got = ('ok', [str(p) for p in r.parts]); print(str(rp))\nexcept Exception as e:\n    got = ('error',); print(type(e).__name__, e)\nprint(got, {want!r}); sys.exit(0 if got == {want!r} else 1)",
+                                   classify(text, base, got, want))
     for text in BAD:
         try:
             RelativeJSONPointer(text)
